@@ -1,0 +1,43 @@
+//go:build verif
+
+// Hooks for the verification harness in /verif. Compiled only with -tags verif; add-only.
+
+package canonicalizer
+
+import "github.com/nlnwa/whatwg-url/url"
+
+// VerifProfile is a dump of a profile in exported form.
+type VerifProfile struct {
+	Parser                  url.Parser
+	RemoveUserInfo          bool
+	RemovePort              bool
+	RemoveFragment          bool
+	SortQuery               int
+	RepeatedPercentDecoding bool
+	DefaultScheme           string
+}
+
+// VerifProfileOf returns the settings of a parser created by New (nil otherwise).
+func VerifProfileOf(p url.Parser) *VerifProfile {
+	pp, ok := p.(*profile)
+	if !ok {
+		return nil
+	}
+	return &VerifProfile{
+		Parser:                  pp.Parser,
+		RemoveUserInfo:          pp.removeUserInfo,
+		RemovePort:              pp.removePort,
+		RemoveFragment:          pp.removeFragment,
+		SortQuery:               int(pp.sortQuery),
+		RepeatedPercentDecoding: pp.repeatedPercentDecoding,
+		DefaultScheme:           pp.defaultScheme,
+	}
+}
+
+func VerifDecodeEncode(s string, tr *url.PercentEncodeSet) string { return decodeEncode(s, tr) }
+
+func VerifRepeatedDecode(s string) string { return repeatedDecode(s) }
+
+func VerifCanonicalize(p url.Parser, u *url.Url) (*url.Url, error) {
+	return p.(*profile).Canonicalize(u)
+}
